@@ -5,6 +5,7 @@ import (
 	"fmt"
 	"reflect"
 	"strings"
+	"syscall"
 
 	"github.com/cockroachdb/errors"
 	"github.com/cockroachdb/errors/errorspb"
@@ -186,3 +187,5 @@ func sample(t *gen.Node, extra map[string]interface{}) map[string]interface{} {
 }
 
 func driftOwner(a, b *errorspb.EncodedError) string { return famShort(sim.DriftOwner(a, b)) }
+
+type syscallErrno = syscall.Errno
